@@ -39,6 +39,8 @@ def with_galg(ex, case):
         _GALG['L'] = L
     ex.llvm = L
     ex.galg_scalars = True
+    ex.galg_coord_axioms = bool(case is not None and case.opts.get('coord_axioms'))
+    ex.galg_scalar_eq_axioms = bool(case is not None and case.opts.get('scalar_eq_axioms'))
     if galg.refine_model not in ex.model_refiners:
         ex.model_refiners.append(galg.refine_model)
     stubs_hash.install(ex)
